@@ -70,6 +70,16 @@ Why(r) ==
            (IF \E i \in 1 .. Len(rows) : LET n == NodeByPath(rows[i][1]) IN
                    rows[i][2] # r.snapshot[n].size \/ rows[i][3] # Str(ModeChars(r.snapshot[n].mode)) \/ rows[i][4] # r.snapshot[n].nlink
             THEN "metadata-of-unreadable-entry-disturbed" ELSE "ok")
+        ELSE IF r.path = "media" THEN
+           \* (dimensions are read from the content of image files: p.svg is 5 x 5; nothing else in the tree has any)
+           (IF \E i \in 1 .. Len(rows) : LET n == NodeByPath(rows[i][1]) IN n \in bad /\ (rows[i][2] # "" \/ rows[i][3] # "" \/ rows[i][4] # "")
+            THEN "content-column-of-unreadable-file-not-empty"
+            ELSE IF \E i \in 1 .. Len(rows) : LET n == NodeByPath(rows[i][1]) IN
+                   n \in files \ bad /\ (rows[i][4] # ToString(Lines(n)) \/ rows[i][2] # (IF w.nodes[n].name = "p.svg" THEN "5" ELSE "")
+                                           \/ rows[i][3] # (IF w.nodes[n].name = "p.svg" THEN "5" ELSE ""))
+            THEN "readable-file-disturbed"
+            ELSE IF \E i \in 1 .. Len(rows) : LET n == NodeByPath(rows[i][1]) IN n \in all \ files /\ (rows[i][2] # "" \/ rows[i][3] # "")
+            THEN "content-column-of-a-directory-not-empty" ELSE "ok")
         ELSE (IF \E i \in 1 .. Len(rows) : LET n == NodeByPath(rows[i][1]) IN
                    n \in bad /\ (rows[i][2] # "" \/ rows[i][3] # "" \/ rows[i][4] \notin {"", "false"})
               THEN "content-column-of-unreadable-file-not-empty"
